@@ -938,6 +938,16 @@ pub fn check_c10(scn: &Scenario, knobs: &Knobs, replay: Option<Vec<(u64, usize)>
 pub fn edit_tree(rng: &mut Rng, t: &TreeSpec) -> TreeSpec {
   fn edit_map(rng: &mut Rng, m: &MapSpec) -> MapSpec {
     let mut m = m.clone();
+    // "present but all empty" vs "absent" sourcesContent: a different value
+    // that serialises to the same document
+    if m.sources_content.iter().all(|c| c.is_empty()) && rng.chance(250) {
+      if m.sources_content.is_empty() {
+        m.sources_content.push(String::new());
+      } else {
+        m.sources_content.clear();
+      }
+      return m;
+    }
     match rng.below(6) {
       0 => m.mappings.push_str(";AAAA"),
       1 => m.sources.push("extra.js".into()),
